@@ -705,6 +705,13 @@ theorem step_cur (s s' : St) (e : Ev) (h : Cur s) (ha : AllRec s) (hs : step s e
       · simp at hs; subst hs; exact h.frame rfl rfl rfl rfl rfl
       all_goals cases hs
     · cases hs
+  | envErr a e0 =>
+    simp only [step, stepI] at hs
+    split at hs
+    · split at hs
+      · simp at hs; subst hs; exact h.frame rfl rfl rfl rfl rfl
+      all_goals cases hs
+    · cases hs
   | giveUp n =>
     simp only [step, stepI] at hs
     split at hs
